@@ -380,3 +380,18 @@ claim("C44", LDJ,
       "address that maps back to its (library, function).",
       "TLC; page-aligned PE sections; ELF imports not covered; one recorded known finding (ELF segments always writable)",
       "DESIGN.md 5/C44", "Loader")
+
+DSJ = ("TLA+ statement of control-flow-graph well-formedness against the single-instruction decoding of the buffer (Disasm.tla) used as "
+       "the deciding oracle: the blocks, constraints and graph edges recursive disassembly returns, and the merged blocks, are judged "
+       "by TLC")
+
+claim("C31", DSJ,
+      "Disasm.tla: instructions of a block are consecutive and identical (mnemonic and bytes) to the single decoding at their offsets, "
+      "no flow-breaking instruction inside a block, no instruction in two blocks, no branch target / forced split / forbidden address "
+      "inside a block, block length and count limits, successors = static flow destinations (calls only with follow_call) + "
+      "fall-through, both as block constraints and as graph edges; bbl_simplifier's merged blocks must be chains of original blocks "
+      "minus only the jumps linking them. Buffers: hand-written x86-32 fragments (jumps into already disassembled blocks and into the "
+      "bytes of longer instructions, INT / SYSCALL, calls, loops, targets outside the buffer), assembled random functions, random "
+      "bytes salted with short branches; default and random configurations; start addresses inside the buffer.",
+      "TLC; x86-32; no delay slots; one recorded known finding (merging on truncated graphs), decided by TLC",
+      "DESIGN.md 5/C31", "Disasm")
